@@ -224,6 +224,10 @@ bool XmlNode::isComment() const
 
 std::string XmlNode::name() const
 {
+    // Note: some nodes (e.g., a CDATA section) have no name.
+    if (mPimpl->mXmlNodePtr->name == nullptr) {
+        return {};
+    }
     return reinterpret_cast<const char *>(mPimpl->mXmlNodePtr->name);
 }
 
@@ -275,6 +279,12 @@ bool XmlNode::equals(const XmlNodePtr &node) const
 
 XmlNodePtr XmlNode::firstChild() const
 {
+    // Note: only elements have children of their own (the "children" of an
+    //       entity reference are its declaration, which is not a node of the
+    //       document tree).
+    if (mPimpl->mXmlNodePtr->type != XML_ELEMENT_NODE) {
+        return nullptr;
+    }
     xmlNodePtr child = mPimpl->mXmlNodePtr->children;
     XmlNodePtr childHandle = nullptr;
     while (child != nullptr) {
